@@ -57,6 +57,13 @@ class SimLoop(asyncio.SelectorEventLoop):
     def run_in_executor(self, executor, func, *args):
         fut = self.create_future()
         try:
+            if getattr(executor, 'pickles', False):
+                # what a ProcessPoolExecutor does to the call and to its result: both cross a process boundary as pickles
+                # (objects are cloned, not passed by reference) — done in-process so that the run stays deterministic
+                import pickle
+                func, args = pickle.loads(pickle.dumps((func, args)))
+                fut.set_result(pickle.loads(pickle.dumps(func(*args))))
+                return fut
             fut.set_result(func(*args))
         except BaseException as e:  # noqa
             fut.set_exception(e)
@@ -72,6 +79,14 @@ class SimLoop(asyncio.SelectorEventLoop):
             if not h._cancelled:
                 return h._when
         return None
+
+
+class PicklingExecutor:
+    """Stand-in for `concurrent.futures.ProcessPoolExecutor` under SimLoop (see `SimLoop.run_in_executor`)."""
+    pickles = True
+
+    def shutdown(self, *a, **k):
+        pass
 
 
 class WallClockGuard(BaseException):
